@@ -95,7 +95,7 @@ func (z *zone) close() {
 	}
 	ts := z.terms()
 	for _, t := range ts {
-		if strings.Contains(t, "+") && !strings.HasPrefix(t, "len(") {
+		if strings.Contains(t, "+") {
 			parts := strings.Split(t, "+")
 			if len(parts) == 2 {
 				a, b := parts[0], parts[1]
@@ -220,7 +220,7 @@ func termMentions(t, x string) bool {
 	if t == x {
 		return true
 	}
-	if strings.Contains(t, "+") && !strings.HasPrefix(t, "len(") {
+	if strings.Contains(t, "+") {
 		for _, part := range strings.Split(t, "+") {
 			if termMentions(part, x) {
 				return true
@@ -242,7 +242,7 @@ func (z *zone) shift(x string, c int) {
 		if t == x {
 			return true
 		}
-		if strings.Contains(t, "+") && !strings.HasPrefix(t, "len(") {
+		if strings.Contains(t, "+") {
 			for _, p := range strings.Split(t, "+") {
 				if p == x {
 					return true
@@ -479,6 +479,7 @@ type idxAnalyzer struct {
 	invBad   map[string]bool
 	mono     map[*types.Func]map[string]bool
 	curRecv  string
+	subst    map[*types.Var]string // receiver variable of an inlined predicate method → term at the call site
 	curRecvT *types.Named
 	lenKeep  map[*types.Func]bool // string → string functions that preserve the byte length
 	progress map[ast.Node]*progSite
@@ -542,6 +543,9 @@ func (a *idxAnalyzer) termKey(e ast.Expr) (string, bool) {
 			o = a.info.Defs[x]
 		}
 		if v, ok := o.(*types.Var); ok {
+			if k, ok := a.subst[v]; ok {
+				return k, true // the receiver of a predicate method being read at a call site
+			}
 			if v.Pkg() != nil && v.Parent() == v.Pkg().Scope() {
 				return "", false // package-level variables are not tracked
 			}
@@ -662,7 +666,7 @@ func normLin(l *linExpr) *linExpr {
 		}
 		compoundAlready := false
 		for _, p := range same {
-			if strings.Contains(p, "+") && !strings.HasPrefix(p, "len(") {
+			if strings.Contains(p, "+") {
 				compoundAlready = true
 			}
 		}
@@ -720,6 +724,37 @@ func (a *idxAnalyzer) refine(z *zone, e ast.Expr, truth bool) {
 		if k, ok := a.termKey(id); ok {
 			for _, pe := range z.pend[k] {
 				z.add(pe.x, pe.y, pe.w)
+			}
+		}
+		return
+	}
+	// a predicate method of this package — no parameters, one boolean return over the receiver's
+	// fields (isEOF() = position >= len(tokens)) — is read as its body at the call's receiver
+	if call, isCall := ast.Unparen(e).(*ast.CallExpr); isCall && len(call.Args) == 0 && len(a.subst) == 0 {
+		if se, ok := ast.Unparen(call.Fun).(*ast.SelectorExpr); ok {
+			if cal := calleeFunc(a.info, call); cal != nil {
+				if fd := a.declOf[cal]; fd != nil && fd.Body != nil && len(fd.Body.List) == 1 && fd.Recv != nil && len(fd.Recv.List) == 1 && len(fd.Recv.List[0].Names) == 1 {
+					if rs, ok := fd.Body.List[0].(*ast.ReturnStmt); ok && len(rs.Results) == 1 {
+						if rk, ok := a.termKey(se.X); ok {
+							if rv, ok := a.info.Defs[fd.Recv.List[0].Names[0]].(*types.Var); ok {
+								pure := true
+								ast.Inspect(rs.Results[0], func(n ast.Node) bool {
+									if c, ok := n.(*ast.CallExpr); ok {
+										if id, ok := ast.Unparen(c.Fun).(*ast.Ident); !ok || id.Name != "len" {
+											pure = false
+										}
+									}
+									return true
+								})
+								if pure {
+									a.subst = map[*types.Var]string{rv: rk}
+									a.refine(z, rs.Results[0], truth)
+									a.subst = nil
+								}
+							}
+						}
+					}
+				}
 			}
 		}
 		return
@@ -867,6 +902,22 @@ func (a *idxAnalyzer) proveLE(z *zone, l *linExpr, k int) bool {
 		n := normLin(l)
 		if len(n.t) < len(l.t) {
 			return a.proveLE(z, n, k)
+		}
+		// p - q - r <= k follows from p - q <= k when r is known non-negative
+		if len(neg) == 2 {
+			for i := 0; i < 2; i++ {
+				if strings.HasPrefix(neg[i], "len(") || z.le(zeroTerm, neg[i], 0) {
+					d := &linExpr{t: map[string]int{}, c: l.c}
+					for t, v := range l.t {
+						if t != neg[i] {
+							d.t[t] = v
+						}
+					}
+					if a.proveLE(z, d, k) {
+						return true
+					}
+				}
+			}
 		}
 	}
 	return false
@@ -1075,6 +1126,9 @@ func (a *idxAnalyzer) assign(z *zone, lhs ast.Expr, rhs ast.Expr) {
 		z.forget(key)
 		return
 	}
+	if a.assignMinMax(z, key, rhs) {
+		return
+	}
 	l, lok := a.lin(rhs)
 	if lok {
 		if v, has := l.t[key]; has && v == 1 && len(l.t) == 1 {
@@ -1101,6 +1155,31 @@ func (a *idxAnalyzer) assign(z *zone, lhs ast.Expr, rhs ast.Expr) {
 						z.neg[key] = true
 					}
 					z.add(key, seqLen, l.c-o.plus)
+					return
+				}
+			}
+		}
+		// x = x + t + c with t + c known non-negative: x only grows (its lower bounds survive), and
+		// the new x is at least t + c above the old x's own lower bound
+		if v, has := l.t[key]; has && v == 1 && len(l.t) == 2 {
+			for tk, cv := range l.t {
+				if tk == key || cv != 1 {
+					continue
+				}
+				z.close()
+				lo, known := 0, !z.neg[tk]
+				if w, ok := z.e[[2]string{zeroTerm, tk}]; ok {
+					lo, known = -w, true
+				}
+				if known && lo+l.c >= 0 {
+					lox, knownX := 0, !z.neg[key]
+					if w, ok := z.e[[2]string{zeroTerm, key}]; ok {
+						lox, knownX = -w, true
+					}
+					z.grow(key, lo+l.c)
+					if knownX && !termMentions(tk, key) {
+						z.add(tk, key, -(lox + l.c))
+					}
 					return
 				}
 			}
@@ -1555,7 +1634,13 @@ func (a *idxAnalyzer) applyRetFacts(z *zone, lhs []ast.Expr, call *ast.CallExpr)
 		if f.geParam {
 			// arg - res <= 0
 			if la, ok := a.lin(call.Args[f.param]); ok {
-				if lr, ok := a.lin(lhs[f.res]); ok {
+				if f.whenOK >= 0 {
+					if ak, ok := la.single(); ok {
+						addE(ak, rk, -la.c)
+					} else if len(la.t) == 0 {
+						addE(zeroTerm, rk, -la.c)
+					}
+				} else if lr, ok := a.lin(lhs[f.res]); ok {
 					a.constrainLE(z, linSub(la, lr), 0)
 				}
 			}
@@ -1738,4 +1823,110 @@ func (a *idxAnalyzer) ptrMonotone(fn *types.Func, seen map[*types.Func]bool) boo
 		return true
 	})
 	return ok
+}
+
+// assignMinMax models  key = max(a, b, …) / min(a, b, …)  (the builtins) over linear arguments: the
+// result is above (below) every argument, and it is bounded against a term by the weakest (for the
+// side where all arguments must agree) or the strongest (for the side any one argument gives) of the
+// arguments' own bounds against that term.
+func (a *idxAnalyzer) assignMinMax(z *zone, key string, rhs ast.Expr) bool {
+	call, ok := ast.Unparen(rhs).(*ast.CallExpr)
+	if !ok || len(call.Args) < 2 {
+		return false
+	}
+	id, ok := ast.Unparen(call.Fun).(*ast.Ident)
+	if !ok {
+		return false
+	}
+	b, ok := a.info.Uses[id].(*types.Builtin)
+	if !ok || (b.Name() != "max" && b.Name() != "min") {
+		return false
+	}
+	isMax := b.Name() == "max"
+	var tmps []string
+	for i, arg := range call.Args {
+		la, ok := a.lin(arg)
+		if !ok {
+			for _, t := range tmps {
+				z.forget(t)
+			}
+			z.forget(key)
+			z.neg[key] = true
+			return true
+		}
+		tk := fmt.Sprintf("mm#%d", i)
+		z.neg[tk] = true
+		tl := &linExpr{t: map[string]int{tk: 1}}
+		a.constrainLE(z, linSub(tl, la), 0)
+		a.constrainLE(z, linSub(la, tl), 0)
+		tmps = append(tmps, tk)
+	}
+	z.close()
+	type edge struct {
+		x, y string
+		w    int
+	}
+	var edges []edge
+	isTmp := map[string]bool{}
+	for _, t := range tmps {
+		isTmp[t] = true
+	}
+	for _, t := range z.terms() {
+		if t == key || isTmp[t] {
+			continue
+		}
+		// up: key - t <= w ; down: t - key <= w
+		upAll, upAny, downAll, downAny := true, false, true, false
+		upMax, upMin, downMax, downMin := 0, 0, 0, 0
+		for i, tk := range tmps {
+			if w, ok := z.e[[2]string{tk, t}]; ok {
+				if !upAny || w > upMax {
+					upMax = w
+				}
+				if !upAny || w < upMin {
+					upMin = w
+				}
+				upAny = true
+			} else {
+				upAll = false
+			}
+			if w, ok := z.e[[2]string{t, tk}]; ok {
+				if !downAny || w > downMax {
+					downMax = w
+				}
+				if !downAny || w < downMin {
+					downMin = w
+				}
+				downAny = true
+			} else {
+				downAll = false
+			}
+			_ = i
+		}
+		if isMax {
+			if upAll && upAny {
+				edges = append(edges, edge{key, t, upMax})
+			}
+			if downAny {
+				edges = append(edges, edge{t, key, downMin})
+			}
+		} else {
+			if upAny {
+				edges = append(edges, edge{key, t, upMin})
+			}
+			if downAll && downAny {
+				edges = append(edges, edge{t, key, downMax})
+			}
+		}
+	}
+	z.forget(key)
+	for _, t := range tmps {
+		z.forget(t)
+		delete(z.neg, t)
+	}
+	z.neg[key] = true
+	for _, e := range edges {
+		z.add(e.x, e.y, e.w)
+	}
+	return true
 }
